@@ -190,7 +190,7 @@ def main(argv=None):
     known_lines = []
     for key, v in sorted(m["known"].items()):
         if key in open_keys:
-            known_lines.append((key, v["count"], open_keys[key].get("what", key)))
+            known_lines.append((key, v["count"], open_keys[key].get("short") or open_keys[key].get("what", key)))
         else:
             # the classifier recognises a mechanism that is not (or no longer) an open finding: a violation
             w = dict(v["witness"])
